@@ -1,8 +1,35 @@
-(** C10 — Formatting is idempotent and never changes program meaning (PARTIAL: see DESIGN.md).
+(** C10 — Formatting is idempotent and never changes program meaning.
+    PARTIAL: theorems for the adjacency core (spacing between the words of one line) and for
+    the validator of the V tie.  Layout (multi-line arrays/functions/packs, alignment, comments,
+    output comments), modifiers' operand spacing and the name->glyph table have no theorem:
+    for them the property is decided by the V tie and the search (see DESIGN.md §C10).
     Property theorems only; every proof is [exact lemma]. *)
 From Coq Require Import List ZArith NArith Bool.
-From UV Require Import Model.Node Model.Exec Model.NodeEq Proofs.NodeEq.
+From UV Require Import Model.Node Model.Exec Model.NodeEq Proofs.NodeEq Model.Fmt Proofs.Fmt Proofs.FmtNorm Proofs.FmtWf.
 Import ListNotations.
+
+(** the formatter's spacing never merges or splits words: lexing the formatted line gives back
+    exactly the formatted words ([norm ts]: the source words with ASCII spellings replaced by
+    glyphs and single spaces exactly where the formatter prints them) *)
+Theorem C10_relex_render : forall ts, wf_tokens ts = true -> lex (render ts) = norm ts.
+Proof. exact relex_render. Qed.
+
+(** the formatted line is a fixed point: formatting it again returns it unchanged *)
+Theorem C10_render_idempotent : forall ts, wf_tokens ts = true -> render (lex (render ts)) = render ts.
+Proof. exact render_idempotent. Qed.
+
+(** on lines that are already in formatted form, [lex (render ts) = ts] *)
+Theorem C10_relex_render_fixed : forall ts, stable ts = true -> lex (render ts) = ts.
+Proof. exact relex_render_fixed. Qed.
+
+(** the adjacency lemma: EVERY pair of neighbouring words that the lexer can produce (with or
+    without spaces between them in the source) is printed so that the lexer separates the two
+    printed words and a second pass takes the same decision *)
+Theorem C10_adjacency : forall p t sp, valid_tok p = true -> valid_tok t = true ->
+  wf_junction p (is_some sp) t = true ->
+  if space_between p sp t then spaced_stable (out_last p) (out_first t) = true
+  else adj_stable (out_last p) (out_first t) = true.
+Proof. exact junction. Qed.
 
 (** V tie validator: a structural comparison of the compiled trees of [s] and [format s] that
     answers [true] only for identical trees ... *)
@@ -17,6 +44,17 @@ Theorem C10_prog_eqb_sound : forall (p q : prog), prog_eqb p q = true ->
     exec pknown psem arrsem unpacksem fmtsem (snd q) fuel (fst q) s.
 Proof. exact prog_eqb_sound. Qed.
 
+(** non-vacuity: "Abc first,1 10 negate5 M!=  ( x_2 )" is well formed, is changed by the
+    formatter ("Abc⊢₁10 ¯ 5 M! = (x_2)"), and relexes to 18 tokens (words and single spaces) *)
+Example C10_nonvacuous :
+  let ts := [TUpper [65;98;99] 0; TSpace false; TNames [8866]; TSubA [8321]; TSpace false; TNum false [49;48];
+             TSpace false; TNames [175]; TNum false [53]; TSpace false; TUpper [77] 1; TEq; TSpace true;
+             TOpen 40; TSpace false; TLower [120]; TStrand; TNum false [50]; TSpace false; TClose 41]%N in
+  wf_tokens ts = true /\
+  render ts = [65;98;99;8866;8321;49;48;32;175;32;53;32;77;33;32;61;32;40;120;95;50;41]%N /\
+  length (lex (render ts)) = 18%nat /\ lex (render ts) <> ts.
+Proof. vm_compute. repeat split; try reflexivity. discriminate. Qed.
+
 Example C10_nonvacuous_validator :
   let p := (Run [Push (SInt 1); Mod MDip [(Sig 1 1 0 0, Prim 8 1 1)]; Call 0 (Sig 2 1 0 0)],
             [Run [Prim 5 2 1]]) in
@@ -24,5 +62,9 @@ Example C10_nonvacuous_validator :
   prog_eqb p (Run [Push (SInt 1); Mod MGap [(Sig 1 1 0 0, Prim 8 1 1)]; Call 0 (Sig 2 1 0 0)], [Run [Prim 5 2 1]]) = false.
 Proof. vm_compute. split; reflexivity. Qed.
 
+Print Assumptions C10_relex_render.
+Print Assumptions C10_render_idempotent.
+Print Assumptions C10_relex_render_fixed.
+Print Assumptions C10_adjacency.
 Print Assumptions C10_node_eqb_sound.
 Print Assumptions C10_prog_eqb_sound.
